@@ -800,6 +800,39 @@ impl Connection {
     }
 }
 
+// Verification hooks: add-only, compiled only with `--cfg libtw2_verif`.
+#[cfg(libtw2_verif)]
+impl Connection {
+    /// Independent copy of the complete endpoint state (the packet scratch
+    /// buffer is fully overwritten before every use and is not state).
+    pub fn verif_clone(&self) -> Connection {
+        Connection {
+            state: self.state.clone(),
+            send: self.send,
+            builder: PacketBuilder::new(),
+        }
+    }
+    /// Rendering of the complete endpoint state (state machine, tokens,
+    /// sequence numbers, queued and unacknowledged chunks, all timers).
+    pub fn verif_fingerprint(&self) -> String {
+        format!("{:?}|{:?}", self.state, self.send)
+    }
+    pub fn verif_state_name(&self) -> &'static str {
+        match self.state {
+            State::Unconnected => "Unconnected",
+            State::Connecting => "Connecting",
+            State::Pending(_) => "Pending",
+            State::Online(_) => "Online",
+            State::Disconnected => "Disconnected",
+        }
+    }
+    /// `None`: the endpoint has not fixed whether/which token is used;
+    /// `Some(None)`: fixed "no token"; `Some(Some(t))`: fixed token `t`.
+    pub fn verif_expected_token(&self) -> Option<Option<[u8; 4]>> {
+        self.state.token().map(|t| t.map(|t| t.0))
+    }
+}
+
 #[cfg(test)]
 mod test {
     use super::Callback;
